@@ -1,8 +1,10 @@
 #!/bin/sh
-# Builds the framework from files on disk only (offline).
+# Builds the framework from files on disk only (offline): constants regenerated from /repo/src, the Lean library with every
+# property-theorem module (about 3 minutes from scratch on 16 cores; later `lake build`s in the checks are incremental), the model
+# driver, the Rust harness against /repo's working tree.
 set -e
 cd "$(dirname "$0")"
 python3 tools/extract_consts.py
-(cd lean && lake build Uflow uflow_driver)
+(cd lean && lake build Uflow uflow_driver $(ls Uflow/Props/*.lean | sed 's#/#.#g; s#\.lean$##'))
 cp /repo/Cargo.lock harness/Cargo.lock 2>/dev/null || true
 (cd harness && CARGO_NET_OFFLINE=true cargo build --release --offline)
